@@ -90,6 +90,7 @@ def gen_case(rng, variant=None, force=None):
         for i in range(d):
             for j in range(i):
                 H[i][j] = F(dec(rng, -1, 1, 2))
+        common.sparse_tilt(rng, H)
     ppp = [1] * d if rng.random() < 0.6 else [rng.choice([0, 1]) for _ in range(d)]
     if not any(ppp):
         ppp[rng.randrange(d)] = 1
